@@ -126,6 +126,12 @@ def run_ops(fa, schema, datum, seed, parsed_identity=None, defaulted=(), reader=
             v = fa.schemaless_reader(fi, schema, reader)
             return {"v": proj.pv(v), "pos": fi.tell()}
         attempt("resolve", res)
+
+        def jres():
+            # the JSON text written under this form, read with writer and reader schema both in this form
+            return {"recs": [proj.pv(r) for r in json_reader(io.StringIO(proj.uncps(out["json"]["text"])), schema, reader)]}
+        if out.get("json", {}).get("ok"):
+            attempt("jsonresolve", jres)
     attempt("validate", lambda: {"v": proj.pv(validate(datum, schema, raise_errors=False))})
     attempt("canon", lambda: {"text": proj.cps(to_parsing_canonical_form(schema))})
 
